@@ -183,7 +183,65 @@ Section SortProofs.
           exists i', l'. split; [exact E'|]. split; [eapply relR_trans; eauto|]. split; [lia|]. auto.
         + destruct (IH q i (j + 1) l) as (i' & l' & E' & R' & Hi' & g1' & g2' & N'); try lia; auto.
           { intros b Hb. destruct (Z.eq_dec b (q + j)) as [->|]; [unfold EQ; rewrite Ee; discriminate|apply N3; lia]. }
-          exists i', l'. auto.
-    Show. Qed.
+          exists i', l'. tauto.
+    Qed.
+
+    Lemma grp_outer_eq f q cnt i l : grp_outer sw eqf (S f) q cnt i l =
+      if i <? cnt then
+        if eqf (itm l (q + (i - 1))) (itm l (q + i)) then grp_outer sw eqf f q cnt (i + 1) l
+        else r <- grp_inner sw eqf (Z.to_nat (cnt - (i + 1))) q i (i + 1) l ;; grp_outer sw eqf f q cnt (fst r + 1) (snd r)
+      else Ok l.
+    Proof. reflexivity. Qed.
+
+    Lemma grp_outer_spec : forall f q cnt i l, q = lo -> q + cnt = hi -> hi <= alen l -> 1 <= i -> i <= cnt + 1 ->
+      cnt + 1 - i <= Z.of_nat f -> G1 l (q + i) -> G2 l (q + i) ->
+      exists l', grp_outer sw eqf (S f) q cnt i l = Ok l' /\ relR lo hi l l' /\ G1 l' hi.
+    Proof.
+      induction f as [|f IH]; intros q cnt i l Hq Hc Hhi Hi Hic Hf g1 g2; rewrite grp_outer_eq.
+      - destruct (Z.ltb_spec i cnt); [simpl in Hf; lia|]. exists l. split; [reflexivity|]. split; [apply relR_refl|].
+        intros a m c Ha Ham Hmc HcI Hch. apply (g1 a m c); auto; lia.
+      - rewrite Nat2Z.inj_succ in Hf. destruct (Z.ltb_spec i cnt) as [Hlt|Hge].
+        2:{ exists l. split; [reflexivity|]. split; [apply relR_refl|].
+            intros a m c Ha Ham Hmc HcI Hch. apply (g1 a m c); auto; lia. }
+        replace (q + (i - 1)) with (q + i - 1) by lia.
+        destruct (eqf (itm l (q + i - 1)) (itm l (q + i))) eqn:Ee.
+        + destruct (G_step_same l (q + i)) as [g1' g2']; try lia; auto.
+          replace (q + i + 1) with (q + (i + 1)) in g1', g2' by lia.
+          apply IH; auto; lia.
+        + destruct (grp_inner_spec (Z.to_nat (cnt - (i + 1))) q i (i + 1) l) as (i' & l1 & E1 & R1 & Hi' & g1' & g2' & N'); try lia; auto.
+          { intros b Hb. replace b with (q + i) by lia. unfold EQ. rewrite Ee. discriminate. }
+          rewrite E1. cbn [bind fst snd].
+          destruct (IH q cnt (i' + 1) l1) as (l' & E' & R' & G'); try lia; auto.
+          { destruct R1 as (_ & L & _). lia. }
+          { (* G1 l1 (q + i' + 1) *)
+            replace (q + (i' + 1)) with (q + i' + 1) by lia.
+            intros a m c Ha Ham Hmc HcI Hch Eac. destruct (Z.eq_dec c (q + i')) as [->|]; [|apply (g1' a m c); auto; lia].
+            exfalso. destruct (eqf (itm l1 a) (itm l1 (q + i' - 1))) eqn:Ea.
+            - apply (N' (q + i')); [lia|]. eapply EQ_trans; [apply EQ_sym; exact Ea|exact Eac].
+            - apply (g2' a (q + i')); try lia; [|exact Eac]. unfold EQ. rewrite Ea. discriminate. }
+          { (* G2 l1 (q + i' + 1) *)
+            replace (q + (i' + 1)) with (q + i' + 1) by lia. unfold G2. replace (q + i' + 1 - 1) with (q + i') by lia.
+            intros a b Ha HaI HIb Hbh N. destruct (Z.eq_dec a (q + i')) as [->|]; [exfalso; apply N, EQ_refl|].
+            destruct (eqf (itm l1 a) (itm l1 (q + i' - 1))) eqn:Ea.
+            - intros X. apply (N' b); [lia|]. eapply EQ_trans; [apply EQ_sym; exact Ea|exact X].
+            - apply (g2' a b); try lia. unfold EQ. rewrite Ea. discriminate. }
+          exists l'. split; [exact E'|]. split; [eapply relR_trans; eauto|exact G'].
+    Qed.
   End Group.
+
+  (* equal items are contiguous in [lo,hi) *)
+  Definition contigL (l : arr) (lo hi : Z) : Prop :=
+    forall a m c, lo <= a -> a < m -> m < c -> c < hi -> EQ l a c -> EQ l a m.
+
+  (* pvGroup on [q, q+cnt): total, only rearranges that range, and afterwards equal items are contiguous in it *)
+  Theorem pvGroup_spec l q cnt : 0 <= q -> 0 <= cnt -> q + cnt <= alen l ->
+    exists l', pvGroup sw eqf l q cnt = Ok l' /\ relR q (q + cnt) l l' /\ contigL l' q (q + cnt).
+  Proof.
+    intros Hq Hc Hl. unfold pvGroup.
+    destruct (grp_outer_spec q (q + cnt) Hq (Z.to_nat cnt) q cnt 1 l) as (l' & E & Rl & G); try lia.
+    - intros a m c Ha Ham Hmc HcI Hch. lia.
+    - intros a b Ha HaI HIb Hbh N. exfalso. apply N. replace a with (q + 1 - 1) by lia. apply EQ_refl.
+    - exists l'. split; [exact E|]. split; [exact Rl|].
+      intros a m c Ha Ham Hmc Hch. apply (G a m c); auto.
+  Qed.
 End SortProofs.
